@@ -19,15 +19,24 @@ Model/MsgWriter.vos Model/MsgWriter.vok Model/MsgWriter.required_vos: Model/MsgW
 Model/NameWire.vo Model/NameWire.glob Model/NameWire.v.beautified Model/NameWire.required_vo: Model/NameWire.v Base/Res.vo Base/Octets.vo Gen/Consts.vo
 Model/NameWire.vio: Model/NameWire.v Base/Res.vio Base/Octets.vio Gen/Consts.vio
 Model/NameWire.vos Model/NameWire.vok Model/NameWire.required_vos: Model/NameWire.v Base/Res.vos Base/Octets.vos Gen/Consts.vos
+Proofs/MsgWriterP.vo Proofs/MsgWriterP.glob Proofs/MsgWriterP.v.beautified Proofs/MsgWriterP.required_vo: Proofs/MsgWriterP.v Base/ListX.vo Model/MsgWriter.vo
+Proofs/MsgWriterP.vio: Proofs/MsgWriterP.v Base/ListX.vio Model/MsgWriter.vio
+Proofs/MsgWriterP.vos Proofs/MsgWriterP.vok Proofs/MsgWriterP.required_vos: Proofs/MsgWriterP.v Base/ListX.vos Model/MsgWriter.vos
 Proofs/NameWireP.vo Proofs/NameWireP.glob Proofs/NameWireP.v.beautified Proofs/NameWireP.required_vo: Proofs/NameWireP.v Base/ListX.vo Model/NameWire.vo Spec/NameWireS.vo Spec/NameRepr.vo
 Proofs/NameWireP.vio: Proofs/NameWireP.v Base/ListX.vio Model/NameWire.vio Spec/NameWireS.vio Spec/NameRepr.vio
 Proofs/NameWireP.vos Proofs/NameWireP.vok Proofs/NameWireP.required_vos: Proofs/NameWireP.v Base/ListX.vos Model/NameWire.vos Spec/NameWireS.vos Spec/NameRepr.vos
 Proofs/NameWireSP.vo Proofs/NameWireSP.glob Proofs/NameWireSP.v.beautified Proofs/NameWireSP.required_vo: Proofs/NameWireSP.v Base/ListX.vo Spec/NameWireS.vo
 Proofs/NameWireSP.vio: Proofs/NameWireSP.v Base/ListX.vio Spec/NameWireS.vio
 Proofs/NameWireSP.vos Proofs/NameWireSP.vok Proofs/NameWireSP.required_vos: Proofs/NameWireSP.v Base/ListX.vos Spec/NameWireS.vos
+Props/C12.vo Props/C12.glob Props/C12.v.beautified Props/C12.required_vo: Props/C12.v Base/ListX.vo Model/MsgWriter.vo Proofs/MsgWriterP.vo
+Props/C12.vio: Props/C12.v Base/ListX.vio Model/MsgWriter.vio Proofs/MsgWriterP.vio
+Props/C12.vos Props/C12.vok Props/C12.required_vos: Props/C12.v Base/ListX.vos Model/MsgWriter.vos Proofs/MsgWriterP.vos
 Props/C14.vo Props/C14.glob Props/C14.v.beautified Props/C14.required_vo: Props/C14.v Base/ListX.vo Model/NameWire.vo Spec/NameWireS.vo Spec/NameRepr.vo Proofs/NameWireP.vo Proofs/NameWireSP.vo
 Props/C14.vio: Props/C14.v Base/ListX.vio Model/NameWire.vio Spec/NameWireS.vio Spec/NameRepr.vio Proofs/NameWireP.vio Proofs/NameWireSP.vio
 Props/C14.vos Props/C14.vok Props/C14.required_vos: Props/C14.v Base/ListX.vos Model/NameWire.vos Spec/NameWireS.vos Spec/NameRepr.vos Proofs/NameWireP.vos Proofs/NameWireSP.vos
+Spec/MsgWriterS.vo Spec/MsgWriterS.glob Spec/MsgWriterS.v.beautified Spec/MsgWriterS.required_vo: Spec/MsgWriterS.v Base/Res.vo Base/Octets.vo Spec/NameWireS.vo Model/MsgWriter.vo
+Spec/MsgWriterS.vio: Spec/MsgWriterS.v Base/Res.vio Base/Octets.vio Spec/NameWireS.vio Model/MsgWriter.vio
+Spec/MsgWriterS.vos Spec/MsgWriterS.vok Spec/MsgWriterS.required_vos: Spec/MsgWriterS.v Base/Res.vos Base/Octets.vos Spec/NameWireS.vos Model/MsgWriter.vos
 Spec/NameRepr.vo Spec/NameRepr.glob Spec/NameRepr.v.beautified Spec/NameRepr.required_vo: Spec/NameRepr.v Model/NameWire.vo Spec/NameWireS.vo
 Spec/NameRepr.vio: Spec/NameRepr.v Model/NameWire.vio Spec/NameWireS.vio
 Spec/NameRepr.vos Spec/NameRepr.vok Spec/NameRepr.required_vos: Spec/NameRepr.v Model/NameWire.vos Spec/NameWireS.vos
